@@ -275,6 +275,101 @@ def sftp_run(listing, nested, api):
     return viol
 
 
+def glob_run(sub_a, sub_b, patterns, api_kw):
+    """mget with patterns whose matches come from different remote directories (or from several patterns) but
+    share a base name: /dir/a/<n> and /dir/b/<n>.  Whatever the types, nothing outside the destination
+    may be touched."""
+    w, dest = prep()
+    before = outside_state(w)
+    loop = P.fresh(0)
+    viol = []
+    try:
+        srv = RS.RefSFTP(loop, extensions=[])
+        srv.dirs[b'/dir'] = [(b'a', 'd', None), (b'b', 'd', None)]
+        for d, (name, kind) in ((b'/dir/a', sub_a), (b'/dir/b', sub_b)):
+            srv.dirs[d] = [(name, kind, None)]
+            path = d + b'/' + name
+            if kind == 'l':
+                srv.links[path] = b'../../outside-target'
+            elif kind == 'd':
+                srv.dirs[path] = [(b'inner', 'f', None)]
+                srv.put_file(path + b'/inner', b'INNER')
+            else:
+                srv.put_file(path, b'PAYLOAD')
+        start, conn = RS.start_client(loop, srv, path_encoding=None)
+        for _ in range(20):
+            loop.quiesce()
+            if start.done():
+                break
+            if srv.pending:
+                srv.answer(0)
+        sftp = start.result()
+        mon = fsmon.start(dest)
+        try:
+            t = loop.create_task(sftp.mget(patterns, dest.encode(), recurse=True, **api_kw))
+            steps = 0
+            while True:
+                loop.quiesce()
+                if t.done() or not srv.pending:
+                    break
+                srv.answer(0)
+                steps += 1
+                if steps > 3000:
+                    raise Livelock('too many requests')
+            if not t.done():
+                viol.append(('hang', 'mget never finished'))
+            else:
+                t.exception()
+        finally:
+            fsmon.stop()
+        for op, p, phys, ro in mon.violations:
+            if not ro:
+                viol.append(('write-outside-destination', '%s(%r) resolves to %s' % (op, p, phys)))
+                break
+        if outside_state(w) != before:
+            viol.append(('outside-modified', 'files outside the destination changed'))
+        if loop.unretrieved():
+            viol.append(('loop-exception', repr(loop.exc_log[0].get('exception'))[:200]))
+    except Livelock as exc:
+        viol.append(('livelock', str(exc)))
+    finally:
+        P.done(loop)
+    return viol
+
+
+def glob_worker(job):
+    acc = core.Acc()
+    try:
+        for sub_a, sub_b, patterns, kwname in job:
+            kw = {'plain': {}, 'preserve': dict(preserve=True), 'errhandler': dict(error_handler=lambda exc: None),
+                  'follow': dict(follow_symlinks=True)}[kwname]
+            viol = glob_run(sub_a, sub_b, patterns, kw)
+            acc.add(core.digest(('glob', sub_a, sub_b, tuple(patterns), kwname)), transitions=4,
+                    sample={'remote': {'/dir/a': [sub_a[0].decode('latin1'), sub_a[1]], '/dir/b': [sub_b[0].decode('latin1'), sub_b[1]]},
+                            'patterns': [p.decode() for p in patterns]} if sub_a[1] == 'l' and sub_b[1] == 'f' and len(patterns) == 1 and kwname == 'plain' else None)
+            for k, d in viol:
+                acc.violation('download:%s:sftp-mget-glob' % k, '%s ; /dir/a/%r(%s) /dir/b/%r(%s) patterns=%r options=%s'
+                              % (d, sub_a[0], sub_a[1], sub_b[0], sub_b[1], patterns, kwname),
+                              {'kind': 'dl-glob', 'a': [sub_a[0].decode('latin1'), sub_a[1]], 'b': [sub_b[0].decode('latin1'), sub_b[1]],
+                               'patterns': [p.decode('latin1') for p in patterns], 'kw': kwname})
+    finally:
+        shutil.rmtree(wdir(), ignore_errors=True)
+    return acc
+
+
+def glob_jobs():
+    cases = []
+    kinds = ('f', 'd', 'l')
+    for ka in kinds:
+        for kb in kinds:
+            for name_b in (b'n', b'm'):
+                for patterns in ([b'/dir/*/n'], [b'/dir/*/*'], [b'/dir/a/n', b'/dir/b/' + name_b], [b'/dir/a/*', b'/dir/b/*'],
+                                 [b'/dir/a/n', b'/dir/a/n'], [b'/dir/a/*', b'/dir/a/n'], [b'/dir/**/n']):
+                    for kwname in ('plain', 'preserve', 'errhandler', 'follow'):
+                        cases.append(((b'n', ka), (name_b, kb), patterns, kwname))
+    return [cases[i::32] for i in range(32)]
+
+
 def sftp_worker(job):
     acc = core.Acc()
     try:
@@ -319,6 +414,7 @@ def run(tier, seed):
         for a, b in pairs:
             jobs.append(((a, b), (b'inner',), api))
     acc.merge(core.pmap(sftp_worker, core.rotate([jobs[i::64] for i in range(64)], seed)))
+    acc.merge(core.pmap(glob_worker, glob_jobs()))
     return acc
 
 
@@ -327,6 +423,9 @@ def replay(r):
     if r['kind'] == 'dl-scp':
         recs = tuple(tuple([x[0]] + [y.encode('latin1') for y in x[1:]]) for x in r['records'])
         return scp_worker([recs])
+    if r['kind'] == 'dl-glob':
+        return glob_worker([[((r['a'][0].encode('latin1'), r['a'][1]), (r['b'][0].encode('latin1'), r['b'][1]),
+                              [p.encode('latin1') for p in r['patterns']], r['kw'])]])
     listing = tuple((n.encode('latin1'), k) for n, k in r['listing'])
     nested = tuple(n.encode('latin1') for n in r['nested'])
     return sftp_worker([(listing, nested, r['api'])])
